@@ -374,3 +374,44 @@ def _(root):
 @V('new-default-maxsize-100')
 def _(root):
     sub_all(root, CACHES, "kwds.get('maxsize', -1)", "kwds.get('maxsize', 100)", count_min=8)
+
+
+@V('rr-counters-as-nonlocal-integers')
+def _(root):
+    """property-preserving: the random-replacement wrapper of _cache.py keeps its statistics in three closure integers rebound through `nonlocal`
+    (declared in wrapper and in clear) instead of the in-place updated list; normalised to the vector form by kv.src.desugar_nonlocal_counters"""
+    import sys
+    sys.path.insert(0, os.path.dirname(os.path.abspath(__file__)))
+    from mutants import _rr_nonlocal
+    p = os.path.join(root, 'klepto', '_cache.py')
+    s = open(p).read()
+    for fn, old, new, which in _rr_nonlocal('hits, misses, loads'):
+        idx = 0 if which == 'first' else which
+        pos = -1
+        for _i in range(idx + 1):
+            pos = s.find(old, pos + 1)
+            if pos < 0:
+                raise RuntimeError('variant anchor not found: %r' % old[:50])
+        s = s[:pos] + new + s[pos + len(old):]
+    open(p, 'w').write(s)
+
+
+@V('sqlite-iter-materialises-distinct-keys')
+def _(root):
+    """property-preserving: the sqlite key iterator lets the database drop duplicate rows but still materialises the result before returning"""
+    sub_all(root, ('_archives.py',), "          sql = \"select argstr from %s\" % self.__state__['id']\n          return (k[-1] for k in set(self._engine.execute(sql)))",
+            "          sql = \"select distinct argstr from %s\" % self.__state__['id']\n          return iter([k[-1] for k in self._engine.execute(sql).fetchall()])")
+
+
+@V('cache-swap-placeholder-compared-by-type')
+def _(root):
+    """property-preserving: a shared module-level placeholder in the swap slot is fine as long as the tests stay by type"""
+    sub_all(root, ('_archives.py',), "        self.__swap__ = null_archive()\n", "        self.__swap__ = NOSWAP\n")
+    sub_all(root, ('_archives.py',), "class dir_archive(archive):\n    \"\"\"dictionary-style interface to a folder of files\"\"\"",
+            "NOSWAP = null_archive()\n\nclass dir_archive(archive):\n    \"\"\"dictionary-style interface to a folder of files\"\"\"")
+
+
+@V('update-wrapper-keyword-form')
+def _(root):
+    """property-preserving: update_wrapper called with keywords"""
+    sub_all(root, CACHES, "        return update_wrapper(wrapper, user_function)", "        return update_wrapper(wrapper, wrapped=user_function)", count_min=12)
